@@ -5,6 +5,8 @@ mod debug;
 mod extmerge;
 mod imports;
 mod loader;
+mod gqljs;
+mod opfile;
 mod paths;
 mod project;
 mod render;
@@ -27,6 +29,8 @@ fn main() {
         "extmerge" => extmerge::run(rest),
         "imports" => imports::run(rest),
         "loader" => loader::run(rest),
+        "opfile" => opfile::run(rest),
+        "opfile-child" => opfile::run_child(rest),
         "loader-child" => loader::run_child(rest),
         other => {
             eprintln!("unknown command {other}");
